@@ -18,7 +18,7 @@ def upper_jobs(ctx, rel):
                 ["--api", "upper", "--mode", "pct", "--scenario", "all", "--runs", "200", "--depth", "3", "--seed", str(ctx.seed)]]
     two = ",".join(n for n, t in sc.scenarios(rel, "upper") if t <= 2)
     return [["--api", "upper", "--mode", "exhaustive", "--scenario", "all", "--preemptions", "3"],
-            ["--api", "upper", "--mode", "exhaustive", "--scenario", two, "--preemptions", "4"],
+            ["--api", "upper", "--mode", "exhaustive", "--scenario", two, "--preemptions", "4", "--max-runs", "30000"],
             ["--api", "upper", "--mode", "pct", "--scenario", "all", "--runs", "20000", "--depth", "5", "--seed", str(ctx.seed)]]
 
 
@@ -83,7 +83,7 @@ def run_c21_conc(ctx):
 
 
 RULE = ("upper-API schedules: all schedules with at most P preemptions (P = 2 quick; thorough: 3, and 4 for the two-thread "
-        "scenarios, TREE_HUGE = 1, 2, 4, 8) of the built-in scenarios (gets racing on one slot / two slots / no slot, get vs put "
+        "scenarios (there at most 30000 schedules per scenario and shard, depth-first), TREE_HUGE = 1, 2, 4, 8) of the built-in scenarios (gets racing on one slot / two slots / no slot, get vs put "
         "with and without slot, sync, drains, steal and demote races, targeted gets, change_tree offline/online/reclass, "
         "exhaustion, partial frees of one huge frame, movable / zeroed / custom classings, 3 threads) + PCT schedules; "
         "non-trivial = failed CAS or a switch away from a thread in the middle of a call")
